@@ -1252,12 +1252,15 @@ func (m *Manager) V2TransactionSet(basis types.ChainIndex, txn types.V2Transacti
 		parents = append(parents, m.txpool.v2txns[index].DeepCopy())
 	}
 
-	// update the transaction's basis to match tip
-	txns, err := m.updateV2TransactionProofs(append(parents, txn), basis, m.tipState.Index)
+	// update the transaction's basis to match tip. The parents come from the
+	// pool, whose proofs are already valid at the tip: only txn is at basis
+	// (validating or updating the parents as if they were at basis fails, or
+	// corrupts their proofs, whenever the tip has moved past basis)
+	txns, err := m.updateV2TransactionProofs([]types.V2Transaction{txn}, basis, m.tipState.Index)
 	if err != nil {
 		return types.ChainIndex{}, nil, fmt.Errorf("failed to update transaction set basis: %w", err)
 	}
-	return m.tipState.Index, txns, nil
+	return m.tipState.Index, append(parents, txns...), nil
 }
 
 func (m *Manager) checkTxnSet(txns []types.Transaction, v2txns []types.V2Transaction) (bool, error) {
